@@ -113,4 +113,63 @@ theorem detectLoop_rule_pos {W : World E L} {T : Tables E} {sort : Sorter E L} {
         · rename_i hex
           exact ih _ _ out hall' (hA.1 (by simpa using hex)) h
 
+/-- the most informative variant: position in the probe order *and* the probe equations -/
+theorem detectLoop_rule_full {W : World E L} {T : Tables E} {sort : Sorter E L} {c : Ctx E} {incl excl : List E}
+    (all : List E)
+    (Inv : List E → LoopState E L → Prop) (Q : Outcome E L → Prop)
+    (hskip : ∀ done st e rest, done ++ e :: rest = all → Inv done st →
+      (allowed incl excl e = false ∨ probe W T c st.soft e = .ok .needsBom ∨
+        probe W T c st.soft e = .ok .hardFail ∨ ∃ f, probe W T c st.soft e = .ok (.similarSkip f)) →
+      Inv (done ++ [e]) st)
+    (hsoft : ∀ done st e rest fb, done ++ e :: rest = all → Inv done st → allowed incl excl e = true →
+      probe W T c st.soft e = .ok (.softFail fb) → Inv (done ++ [e]) (softUpdate T c st e fb))
+    (hacc : ∀ done st e rest m, done ++ e :: rest = all → Inv done st → allowed incl excl e = true →
+      probe W T c st.soft e = .ok (.accepted m) →
+      (exitCond c e m.chaos = false →
+        Inv (done ++ [e]) { st with results := append sort T.tooBig st.results m }) ∧
+      (exitCond c e m.chaos = true → ∀ x, findByCand (append sort T.tooBig st.results m) e = some x →
+        Q (.exit x)))
+    (hdone : ∀ st, Inv all st → Q (.done st)) :
+    ∀ (es : List E) (done : List E) (st : LoopState E L) (out : Outcome E L),
+      done ++ es = all → Inv done st → detectLoop W T sort c incl excl es st = .ok out → Q out := by
+  intro es
+  induction es with
+  | nil =>
+    intro done st out hall hinv h
+    simp only [detectLoop] at h
+    cases h
+    have : done = all := by simpa using hall
+    subst this
+    exact hdone st hinv
+  | cons e es ih =>
+    intro done st out hall hinv h
+    have hall' : (done ++ [e]) ++ es = all := by simpa using hall
+    rw [detectLoop] at h
+    split at h
+    · rename_i hal
+      exact ih (done ++ [e]) st out hall' (hskip done st e es hall hinv (Or.inl (by simpa using hal))) h
+    · rename_i hal
+      have hal' : allowed incl excl e = true := by simpa using hal
+      split at h
+      · cases h
+      · rename_i hp
+        exact ih _ st out hall' (hskip done st e es hall hinv (Or.inr (Or.inl hp))) h
+      · rename_i hp
+        exact ih _ st out hall' (hskip done st e es hall hinv (Or.inr (Or.inr (Or.inl hp)))) h
+      · rename_i f hp
+        exact ih _ st out hall' (hskip done st e es hall hinv (Or.inr (Or.inr (Or.inr ⟨f, hp⟩)))) h
+      · rename_i fb hp
+        exact ih _ _ out hall' (hsoft done st e es fb hall hinv hal' hp) h
+      · rename_i m hp
+        have hA := hacc done st e es m hall hinv hal' hp
+        split at h
+        · rename_i hex
+          split at h
+          · cases h
+          · rename_i x hx
+            cases h
+            exact hA.2 hex x hx
+        · rename_i hex
+          exact ih _ _ out hall' (hA.1 (by simpa using hex)) h
+
 end Charset
